@@ -86,7 +86,7 @@ def _items(ctx):
         if ctx.thorough:
             mids = [k for k, (key, ri) in enumerate(full) if ri.tag in ("opsd", "opbs", "nodb",
                                                                          "fw", "st")]
-            outer = [k for k, (key, ri) in enumerate(full) if ri.tag in REDUCED]
+            outer = [k for k, (key, ri) in enumerate(full) if ri.tag in REDUCED][::2]
             for i, j, k in itertools.product(outer, mids, outer):
                 items.append((famname, pool, reduced, (i, j, k)))
         else:
